@@ -421,7 +421,7 @@ def derive(rng, a, mode):
             return rng.choice([lambda: gen.gen_leaf(rng, 'int'), lambda: aligned_scaled(rng), lambda: gen.gen_leaf(rng, 'string')])()
         lo2, hi2 = _limits(rng, lo, hi, mode, [x for x in gen.FLOAT_CAT], -FMAX, FMAX)
         b = dict(a, min=fj(lo2), max=fj(hi2), ar=fj(rng.choice([_f(a['ar']), 0.0, 0.5])),
-                 rr=fj(rng.choice([_f(a['rr']), 1.2e-7, 0.0, 0.01])))
+                 rr=fj(rng.choice([_f(a['rr']), 1.2e-7, 0.0, 0.01, 0.01, 1.0, 2.0])))
         if rng.random() < 0.2:
             scale = rng.choice([0.5, 0.25, 1.0, 0.1])
             if abs(lo2) < 1e9 and abs(hi2) < 1e9:
@@ -718,6 +718,20 @@ def relax_optional(a, b):
     return b
 
 
+def cap_resolution(b):
+    """`b` with every relative_resolution of 100 % or more set to 50 % (the condition of the recorded finding, repaired)"""
+    t = b['t']
+    if t == 'double' and _f(b['rr']) >= 1.0:
+        return dict(b, rr=fj(0.5))
+    if t == 'array':
+        return dict(b, elem=cap_resolution(b['elem']))
+    if t == 'tuple':
+        return dict(b, elems=[cap_resolution(e) for e in b['elems']])
+    if t == 'struct':
+        return dict(b, members=[[k, cap_resolution(m)] for k, m in b['members']])
+    return b
+
+
 def signature(clause, case, impl=None):
     if case['k'] == 'compat':
         a, b = case['a'], case['b']
@@ -730,6 +744,11 @@ def signature(clause, case, impl=None):
                 dt2 = dtcodec.tree_to_dt(b2)
                 if all(_outcome(lambda: dt2.validate(dtcodec.json_to_py(v)))[0] == 'ok' for v in refused):
                     return 'C03:sound:struct->struct:optional-vs-mandatory'
+            # … or does the check refuse once no relative_resolution of the second type exceeds 1?
+            b3 = cap_resolution(b)
+            if b3 != b and refused:
+                if _outcome(lambda: dtcodec.tree_to_dt(a).compatible(dtcodec.tree_to_dt(b3)))[0] != 'ok':
+                    return 'C03:sound:double:relative-resolution-not-below-1'
         return f"C03:{clause}:{a['t']}->{b['t']}"
     return f"C03:{case['k']}:{clause}:{case['tree']['t']}"
 
